@@ -9,6 +9,7 @@ def main():
     ap.add_argument('--replay', default=None)
     ap.add_argument('--no-lean', action='store_true', help='skip the Lean build (debugging only)')
     a = ap.parse_args()
+    os.environ['VERIF_TIER_ACTIVE'] = a.tier
     budget = int(os.environ.get('VERIF_TIMEOUT', '900' if a.tier == 'quick' else '3000'))
 
     def on_alarm(signum, frame):
